@@ -19,8 +19,10 @@ vars == <<c, ph>>
 Slice == IF "C12_SLICE" \in DOMAIN IOEnv THEN atoi(IOEnv.C12_SLICE) ELSE 0
 NSlices == IF "C12_NSLICES" \in DOMAIN IOEnv THEN atoi(IOEnv.C12_NSLICES) ELSE 1
 
-RECURSIVE SumTo(_, _)
-SumTo(f, n) == IF n = 0 THEN 0 ELSE f[n] + SumTo(f, n - 1)
+RECURSIVE SumRange(_, _, _)
+SumRange(f, lo, hi) == IF lo > hi THEN 0 ELSE IF lo = hi THEN f[lo]
+                       ELSE LET mid == (lo + hi) \div 2 IN SumRange(f, lo, mid) + SumRange(f, mid + 1, hi)
+SumTo(f, n) == SumRange(f, 1, n)
 Knots(o, g) == [i \in 1..(Len(g) + 1) |-> Q * (o + SumTo(g, i - 1))]
 Hash(n, g, o, y) == (SumTo([i \in 1..n |-> i * y[i]], n) + 3 * SumTo(g, n - 1) + o) % NSlices
 
